@@ -266,6 +266,16 @@ def run(ctx):
                        'the provider is created with the configured maximum, which is the size it passes to recv(): checked on the simulated transport']
     pairs = [(L, P) for L in GRID for P in GRID]
     parallel(ctx, run_pairs, [{'pairs': pairs[i::16]} for i in range(16)])
+    # limits above 1 MiB that are not a multiple of it, with file-like data sets several times that size
+    for L, P in ((0, 1572864), (4194304, 1572870), (2 * 1048576 + 13, 0), (4194304, 1048576 + 7)):
+        for role, fn in (('requestor', run_requestor_case), ('acceptor', run_acceptor_case)):
+            lengths = [3 * 1048576 + 11, 3 * 1048576 + 11]      # (one is sent as bytes, the other as a file-like object)
+            try:
+                fn(L, P, lengths)
+            except Violation as v:
+                ctx.fail(v.key, v.what, v.case)
+            ctx.case((role, L, P, 'big'), True, labels=['limits-above-1MiB', 'role=' + role],
+                     sample={'role': role, 'own_max': L, 'peer_announced': P, 'data_len': lengths[0]})
     run_provider_read_sizes(ctx)
     run_random(ctx, 8000 if ctx.thorough else 500)
 
